@@ -128,3 +128,9 @@ impl Fp {
         splitmix64(self.0)
     }
 }
+
+/// True when the run was started for the thorough tier (sizes of the rare giant cases scale up).
+pub fn thorough_tier() -> bool {
+    static T: std::sync::OnceLock<bool> = std::sync::OnceLock::new();
+    *T.get_or_init(|| std::env::var("VERIF_TIER").map(|v| v == "thorough").unwrap_or(false))
+}
